@@ -194,6 +194,7 @@ def run_history(world, case):
         env[f't{t}'] = dct
     clock = case.get('clock0', 0)
     results = []
+    reuse_box = {}
     cyclic = is_cyclic(n, full)
     for irun, run in enumerate(case['runs']):
         world.outcomes = run['outcomes']
@@ -205,9 +206,14 @@ def run_history(world, case):
         sched_box = {}
 
         def body():
-            backend = world.queue_mod.QueueScheduling(n_workers=case['workers'])
+            if case.get('reuse') and reuse_box:
+                # the same Scheduler object (and backend) schedules again
+                backend, sched = reuse_box['backend'], reuse_box['sched']
+            else:
+                backend = world.queue_mod.QueueScheduling(n_workers=case['workers'])
+                sched = world.Scheduler(hard_graph=hard_g, soft_graph=soft_g, backend=backend)
+                reuse_box['backend'], reuse_box['sched'] = backend, sched
             sched_box['backend'] = backend
-            sched = world.Scheduler(hard_graph=hard_g, soft_graph=soft_g, backend=backend)
             sched_box['order'] = [world.names[t.name] for t in sched.full_graph.topological_sort()] \
                 if not cyclic else None
             return sched.schedule(env=env)
